@@ -284,7 +284,17 @@ def analyse_hubs(func, callee_uses=None, maybe_stream_params=()):
                         sz = size_of(c.args[1], local_sizes)
                         if inner and sz is not None:
                             calls = sz - 1 if len(c.args) == 2 else sz
-                            for u in find_uses(list(inner[0].body), matcher, local_sizes, callee_uses):
+                            # the closure's own branches exclude each other: the dearest path counts, per call
+                            best = []
+                            for ipath in simple_paths(docstring_free(inner[0].body)):
+                                got = []
+                                for ist in ipath:
+                                    ival = ist[1] if isinstance(ist, tuple) else getattr(ist, "value", None)
+                                    if ival is not None:
+                                        got.extend(find_uses(ival, matcher, local_sizes, callee_uses))
+                                if len(got) > len(best):
+                                    best = got
+                            for u in best:
                                 u.mult = u.mult * calls
                                 uses.append(u)
                 touched = set()
